@@ -75,6 +75,7 @@ struct Dg {
     //   fp fpbad           FINGERPRINT with the right / a wrong CRC over the preceding bytes
     //   u                  an unknown comprehension-optional attribute
     //   sw                 a USERNAME attribute whose length field runs past the end of the datagram (swallows what follows)
+    //   uc  pr<N>          a USE-CANDIDATE / PRIORITY(N) attribute at this position (behind MESSAGE-INTEGRITY it is NOT covered by the HMAC)
     std::string mi = "-";
     bool uc = false;
     char role = 'n';                 // n none, g controlling, d controlled
@@ -138,6 +139,12 @@ static QByteArray forge(const Dg &d, const Creds &c, const QList<QByteArray> &vi
     for (const auto &t : d.tokens()) {
         if (t == "u") {
             putAttrHeader(b, 0x8030, 5); b.append("hello", 5); b.append(QByteArray(3, '\0'));
+        } else if (t == "uc") {
+            putAttrHeader(b, 0x0025, 0);
+        } else if (t.rfind("pr", 0) == 0) {
+            const quint32 v = quint32(strtoull(t.c_str() + 2, nullptr, 10));
+            putAttrHeader(b, 0x0024, 4);
+            for (int k = 3; k >= 0; k--) b.append(char((v >> (8 * k)) & 0xff));
         } else if (t == "sw") {
             putAttrHeader(b, 0x0006, 0x0400);     // USERNAME claiming 1024 bytes: whatever follows lies inside its value
         } else if (t == "fp" || t == "fpbad") {
@@ -246,7 +253,10 @@ struct Victim {
     Agent ag;
     Creds creds;                       // from the victim's point of view
     QList<QByteArray> vtx;             // its own transaction ids in order of first appearance
-    bool credsSet = false;
+    bool credsSet = false;           // remote user set
+    bool pwSet = false;              // remote password set
+    bool reportRetransmits = false;  // the current operation is `rtx`
+    std::vector<std::string> obsLog; // every observation of this scenario (twin-run oracle)
     std::string history;
     long long markerNo = 0;
     Rng &rng;
@@ -316,7 +326,11 @@ struct Victim {
                     // the victim's own connectivity check: must verify under the password we gave it
                     if (!m.decode(b, creds.remotePw.toUtf8())) { seen.c << to + QStringLiteral(":undecodable"); continue; }
                     int k = vtx.indexOf(m.id());
-                    if (k >= 0) { stat("retransmissions_seen"); continue; }
+                    if (k >= 0) {
+                        stat("retransmissions_seen");
+                        if (reportRetransmits) seen.c << to + QLatin1Char(':') + QString::number(k) + QLatin1Char(':') + (m.useCandidate ? QLatin1Char('1') : QLatin1Char('0'));
+                        continue;
+                    }
                     vtx << m.id(); k = vtx.size() - 1;
                     seen.c << to + QLatin1Char(':') + QString::number(k) + QLatin1Char(':') + (m.useCandidate ? QLatin1Char('1') : QLatin1Char('0'));
                     // PRIORITY attribute = priority of a would-be peer-reflexive candidate (RFC 5245 7.1.2.1), role attribute = its role
@@ -360,7 +374,17 @@ struct Victim {
         { size_t i = 0; while (i < op.size()) { size_t j = op.find(' ', i); if (j == std::string::npos) j = op.size(); if (j > i) w.push_back(op.substr(i, j - i)); i = j + 1; } }
         std::string sendResult;
         if (w[0] == "creds") {
-            ag.conn->setRemoteUser(creds.remoteUser); ag.conn->setRemotePassword(creds.remotePw); credsSet = true;
+            ag.conn->setRemoteUser(creds.remoteUser); ag.conn->setRemotePassword(creds.remotePw); credsSet = true; pwSet = true;
+        } else if (w[0] == "ruser") {
+            ag.conn->setRemoteUser(creds.remoteUser); credsSet = true;
+        } else if (w[0] == "rpass") {
+            ag.conn->setRemotePassword(creds.remotePw); pwSet = true;
+        } else if (w[0] == "rtx") {
+            const int k = atoi(w[1].c_str());
+            reportRetransmits = true;
+            if (k < vtx.size())
+                for (auto *tx : ag.comp->findChildren<QXmppStunTransaction *>(QString(), Qt::FindDirectChildrenOnly))
+                    if (tx->request().id() == vtx[k]) { QMetaObject::invokeMethod(tx, "retry", Qt::DirectConnection); ag.parkTimers(); break; }
         } else if (w[0] == "addr") {
             QXmppJingleCandidate c;
             c.setComponent(ag.compId); c.setHost(QHostAddress(LOOP)); c.setPort(portOfId(atoi(w[1].c_str())));
@@ -396,18 +420,23 @@ struct Victim {
         }
         Seen seen = settle();
         if (!sendResult.empty()) seen.t << QString::fromStdString(sendResult);
-        corr(op, observe(seen));
+        reportRetransmits = false;
+        obsLog.push_back(observe(seen));
+        corr(op, obsLog.back());
         stat("ops");
         // ---- oracle: no reaction to anything that does not prove knowledge of the session credentials
         const bool reaction = !seen.r.isEmpty() || !seen.c.isEmpty() || !ag.ps.isEmpty() || !ag.sel.isEmpty() || ag.sig > 0 ||
             ag.comp->isConnected() != wasConnected;
         if (dg && !dg->app) {
             stat("dg_" + dg->cls + "_" + dg->integrity()); if (!dg->plain()) stat("dg_odd_layout");
-            if (!dg->authentic()) {
+            const bool isRsp = dg->cls == "rsp" || dg->cls == "err";
+            // a response can only prove knowledge of the remote password once the victim has been given that password
+            if (!dg->authentic() || (isRsp && !pwSet)) {
                 if (!reaction) oraclePass()++;
                 else {
                     const std::string in = dg->integrity();
                     std::string key = "C15:unauthenticated-" + in + "-" + dg->cls + "-has-effect";
+                    if (isRsp && !pwSet && in != "abs") key = "C15:response-accepted-before-remote-password-is-known";
                     if (in == "abs" && dg->cls == "req") key = "C15:binding-request-without-mi-processed";
                     if (in == "abs" && (dg->cls == "rsp" || dg->cls == "err")) key = "C15:binding-response-without-mi-accepted";
                     oracleFail(key, history + " => " + observe(seen));
@@ -509,7 +538,7 @@ struct Scenario {
 
 // resolves "latest own transaction" placeholders (txid 999) at run time, because only then the number of the victim's
 // transactions is known
-static void runScenario(const Scenario &sc, Rng &rng, int fuzz = 0)
+static std::vector<std::string> runScenario(const Scenario &sc, Rng &rng, int fuzz = 0)
 {
     drainAll();
     Victim v(sc.ctl, sc.comp, rng);
@@ -526,6 +555,7 @@ static void runScenario(const Scenario &sc, Rng &rng, int fuzz = 0)
     stat("scenarios");
     if (v.ag.comp->isConnected()) stat("scenarios_ending_connected");
     pump(1);
+    return v.obsLog;
 }
 
 static unsigned long long hostPrio(int comp) { return rfcCandidatePriority(126, 65535, comp); }
@@ -565,10 +595,13 @@ static Scenario baseState(int which, bool ctl, int comp)
             s.add(mk(1, "rsp", "rem", 0)); break;
     case 6: s.add("creds"); s.add("addr 1 " + pr); s.add("addr 2 " + std::to_string(hostPrio(comp) - 512)); s.add("connect"); s.add("tick"); break;  // two checks in flight
     case 7: s.add("creds"); s.add("addr 1 " + pr); s.add("connect"); s.add("timeout 0"); break;   // the only pair failed
+    case 8: s.add("ruser"); s.add("addr 1 " + pr); s.add("connect"); break;      // remote user but NO remote password yet: check 0 in flight
+    case 9: s.add("rpass"); s.add("addr 1 " + pr); s.add("connect"); break;      // remote password but no remote user: nothing is sent
+    case 10: s.add("ruser"); s.add("addr 1 " + pr); s.add("connect"); s.add("rtx 0"); s.add("rpass"); break;   // password arrives after the check started
     }
     return s;
 }
-static const int kBaseStates = 8;
+static const int kBaseStates = 11;
 
 static std::vector<Dg> reducedAlphabet(bool full)
 {
@@ -595,7 +628,9 @@ static std::vector<Dg> reducedAlphabet(bool full)
     static const char *odd[] = { "fp+bad", "fp+loc", "fp+rem", "fp+trunc", "u+fp+loc", "u+fp+rem", "fpbad+loc", "fpbad+rem", "fp+fp+rem",
                                  "bad+loc", "bad+rem", "loc+bad", "rem+bad", "loc+loc+fp", "rem+rem", "trunc+loc", "trunc+rem", "loc+trunc", "rem+trunc+fp",
                                  "u+loc+fp", "u+u+rem", "u+bad", "sw+loc", "sw+rem", "u+sw+rem+fp", "loc+sw", "rem+sw+fp", "loc+fpbad", "rem+fpbad",
-                                 "loc+u+fp", "rem+u+fp", "rem+u+fpbad", "u", "u+fp", "sw", "fpbad", "fp+fpbad+rem" };
+                                 "loc+u+fp", "rem+u+fp", "rem+u+fpbad", "u", "u+fp", "sw", "fpbad", "fp+fpbad+rem",
+                                 // USE-CANDIDATE / PRIORITY behind a valid MESSAGE-INTEGRITY (appended by someone without the key) and in front of it
+                                 "loc+uc", "loc+uc+fp", "loc+pr4294967295+fp", "loc+uc+pr7+u+fp", "rem+uc+fp", "uc+loc+fp", "pr5+loc", "uc+fp+loc", "bad+uc" };
     for (int src : { 1, 8 })
         for (const char *cls : clss)
             for (const char *lay : odd) {
@@ -632,7 +667,7 @@ static Dg randomDg(Rng &rng, int comp)
     d.mi = layoutOf(r < 25 ? "abs" : r < 55 ? valid : r < 65 ? other : r < 85 ? "bad" : "trunc");
     if (rng.below(4) == 0) {
         // a random layout of 1..5 integrity-relevant attributes in any order
-        static const char *toks[] = { "loc", "rem", "bad", "trunc", "fp", "fp", "fpbad", "u", "u", "sw" };
+        static const char *toks[] = { "loc", "rem", "bad", "trunc", "fp", "fp", "fpbad", "u", "uc", "sw" };
         std::string l;
         const int n = 1 + rng.below(5);
         for (int i = 0; i < n; i++) { if (i) l += "+"; const unsigned k = rng.below(12); l += (k >= 10 ? valid : toks[k]); }
@@ -689,10 +724,12 @@ static void part1(const Args &a, Rng &rng)
         D(mk(1, "req", "loc", 7004, true, 'n', 1853817087ull, 1)); D(mk(1, "req", "loc", 7005, false, 'n', 1853817087ull, 1));
         D(mk(1, "rsp", "rem", 999)); D(mk(1, "err", "rem", 999)); D(mk(1, "rsp", "abs", 999));
         D(mk(8, "req", "fp+bad", 7006, true)); D(mk(8, "rsp", "fp+rem", 999)); D(mk(1, "rsp", "sw+rem", 999)); D(mk(8, "req", "u+fp+loc", 7007, false));
+        D(mk(1, "req", "loc+uc+fp", 7008, false, 'n', 1853817087ull, 1));
+        small.push_back({ "rtx 0", Dg() });
         small.push_back({ "tick", Dg() }); small.push_back({ "timeout 0", Dg() }); small.push_back({ "timeout 1", Dg() }); small.push_back({ "connect", Dg() });
         const int depth = thorough ? 3 : 2;
         std::vector<int> idx(depth, 0);
-        for (int b : { 1, 2, 3 })
+        for (int b : thorough ? std::vector<int>{ 1, 3, 8 } : std::vector<int>{ 1, 2, 3, 8 })
             for (int ctl = 0; ctl < 2; ctl++) {
                 std::fill(idx.begin(), idx.end(), 0);
                 while (true) {
@@ -734,6 +771,46 @@ static void part1(const Args &a, Rng &rng)
                     stat("interleaved_scenarios");
                 }
         }
+    // ---- tampering with GENUINE messages: someone on the path (no password) appends attributes behind the MESSAGE-INTEGRITY of an
+    // authentic request/response (recomputing the FINGERPRINT, which needs no key).  Those bytes are not covered by the HMAC, so
+    // the component must behave exactly as for the untampered message: the whole negotiation is run twice on the real component,
+    // with and without the appended attributes, and every observation must coincide (model-independent differential oracle).
+    {
+        static const char *trailers[] = { "uc", "pr4294967295", "uc+pr1", "u", "bad", "uc+u+pr2130706431" };
+        for (int ctl = 0; ctl < 2; ctl++)
+            for (int script = 0; script < 3; script++)
+                for (int where = 0; where < 2; where++)
+                    for (const char *tr : trailers)
+                        for (int withFp = 0; withFp < 2; withFp++) {
+                            const int comp = comps[(ctl + script) % 3];
+                            std::vector<std::string> logs[2];
+                            for (int tampered = 0; tampered < 2; tampered++) {
+                                auto lay = [&](const char *valid, bool here) {
+                                    return std::string(valid) + (tampered && here ? std::string("+") + tr : std::string()) + (withFp ? "+fp" : "");
+                                };
+                                Scenario s; s.ctl = ctl; s.comp = comp;
+                                s.add("creds"); s.add("addr 1 " + std::to_string(hostPrio(comp)));
+                                // the peer nominates regularly: its first check carries no USE-CANDIDATE
+                                Dg req1 = mk(1, "req", lay("loc", where == 0).c_str(), 5000, false, ctl ? 'd' : 'g', rfcCandidatePriority(110, 65535, comp), 1);
+                                Dg rsp = mk(1, "rsp", lay("rem", where == 1).c_str(), 0);
+                                Dg req2 = mk(1, "req", lay("loc", false).c_str(), 5001, !ctl, ctl ? 'd' : 'g', rfcCandidatePriority(110, 65535, comp), 1);
+                                if (script == 0) { s.add("connect"); s.add(req1); s.add(rsp); s.add(req2); }
+                                else if (script == 1) { s.add(req1); s.add("connect"); s.add(rsp); s.add(req2); }   // triggered-check path
+                                else { s.add("connect"); s.add(rsp); s.add(req1); s.add(req2); }
+                                s.add("send 80010203"); s.add("tick");
+                                logs[tampered] = runScenario(s, rng);
+                            }
+                            stat("tamper_twin_runs");
+                            if (logs[0] == logs[1]) oraclePass()++;
+                            else {
+                                size_t k = 0; while (k < logs[0].size() && k < logs[1].size() && logs[0][k] == logs[1][k]) k++;
+                                oracleFail("C15:unprotected-attribute-after-mi-has-effect",
+                                           "ctl=" + std::to_string(ctl) + " comp=" + std::to_string(comp) + " script=" + std::to_string(script) + " appended '" + tr + "' behind the valid MESSAGE-INTEGRITY of the " +
+                                           (where == 0 ? "request" : "response") + (withFp ? " (+FINGERPRINT)" : "") + ": operation #" + std::to_string(k) + " observed [" + (k < logs[1].size() ? logs[1][k] : "-") +
+                                           "] instead of [" + (k < logs[0].size() ? logs[0][k] : "-") + "]");
+                            }
+                        }
+    }
     // ---- seeded random sequences over the full alphabet
     const int nrand = thorough ? 8000 : 1500;
     for (int i = 0; i < nrand; i++) {
@@ -742,7 +819,10 @@ static void part1(const Args &a, Rng &rng)
         bool connectDone = false;
         for (int j = 0; j < len; j++) {
             unsigned r = rng.below(100);
-            if (r < 8) s.add("creds");
+            if (r < 5) s.add("creds");
+            else if (r < 7) s.add("ruser");
+            else if (r < 8) s.add("rpass");
+            else if (r >= 96) s.add("rtx " + std::to_string(rng.below(3)));
             else if (r < 18) {
                 static const unsigned long long deltas[] = { 0, 0, 512, 1ull << 24, 2130706000ull };
                 s.add("addr " + std::to_string(rng.coin() ? 1 : 2 + 6 * (rng.below(8) == 0)) + " " + std::to_string(hostPrio(s.comp) - deltas[rng.below(5)]));
